@@ -52,10 +52,18 @@ def run(ctx):
                 recs.append(rec); kinds.append(k); sh = o
             ctx.count("chained")
         if first_input:
-            recs = [gen.node_recipe(rng, "Input", meta_p=0.0)] + recs
+            r0 = gen.node_recipe(rng, "Input", meta_p=0.0)
+            if rng.random() < 0.35:
+                r0 = {"type": "Input", "kwargs": [["input_type", None]]}     # an explicit end point left untyped (legal)
+                ctx.count("explicit_endpoint_untyped")
+            recs = [r0] + recs
             kinds = ["Input"] + kinds
         if last_output:
-            recs = recs + [gen.node_recipe(rng, "Output", meta_p=0.0)]
+            r1 = gen.node_recipe(rng, "Output", meta_p=0.0)
+            if rng.random() < 0.35:
+                r1 = {"type": "Output", "kwargs": [["output_type", None]]}
+                ctx.count("explicit_endpoint_untyped")
+            recs = recs + [r1]
             kinds = kinds + ["Output"]
         conv = rng.choice(["args", "list", "tuple"])
         case = {"op": "from_list", "nodes": recs, "convention": conv}
@@ -117,4 +125,23 @@ def run(ctx):
                     ctx.violate(case, "auto Output does not carry the last node's output type", {**sig, "what": "output-type"},
                                 observed=canon(out.output_type), required=canon(last.output_type))
         cases.append(case); obs.append(o); reqs.append(case)
+        # a second call on some of the same node objects (another order, another repetition index): names depend on the
+        # sequence given *now*, never on what an earlier call did with the objects
+        body = [(k, nd) for k, nd in zip(kinds, nodes) if k not in ("Input", "Output")]
+        if i % 2 == 0 and len(body) >= 2:
+            sub = rng.sample(body, rng.randrange(1, len(body) + 1))
+            if rng.random() < 0.5:
+                sub = sub[::-1]
+            ctx.count("second_call_on_same_objects")
+            try:
+                g2 = nir.NIRGraph.from_list([nd for _, nd in sub])
+                keys2 = list(g2.nodes.keys()); vals2 = list(g2.nodes.values())
+                want2 = ["input"] + expected_names([k for k, _ in sub]) + ["output"]
+                ok = keys2 == want2 and all(a is b for a, (_, b) in zip(vals2[1:-1], sub)) and len(vals2) == len(sub) + 2
+            except Exception as e:  # noqa
+                keys2, want2, ok = f"raised {type(e).__name__}", None, False
+            if not ok:
+                ctx.violate({**case, "second_call": [k for k, _ in sub]}, "a later from_list call on node objects used before "
+                            "does not name / hold them by the sequence it was given",
+                            {"site": "from_list", "what": "second-call"}, observed=keys2, required=want2)
     ctx.compare("graphs", cases, obs, reqs)
